@@ -407,15 +407,16 @@ class Lifter(ast.NodeTransformer):
         left = self.visit(node.left)
         if len(node.ops) == 1:
             return _call(_L('CMP'), _const(type(node.ops[0]).__name__), left, self.visit(node.comparators[0]))
-        # chain: a < b < c  ->  AND(lambda: CMP(a,b), lambda: CMP(b,c)) with temporaries via walrus
-        parts = []
-        prev = left
-        for op, comp in zip(node.ops, node.comparators):
+        # chain: a < b < c  ->  (lambda t: AND(lambda: CMP(a, t), lambda: CMP(t, c)))(b), nested for longer chains (a walrus
+        # inside the thunks would bind in the thunk's own scope and be invisible to the next one)
+        def chain(prev, ops, comps):
+            if len(ops) == 1:
+                return _call(_L('CMP'), _const(type(ops[0]).__name__), prev, self.visit(comps[0]))
             t = self.tmp('c')
-            cur = ast.NamedExpr(target=_name(t, ast.Store()), value=self.visit(comp))
-            parts.append(_call(_L('CMP'), _const(type(op).__name__), prev, cur))
-            prev = _name(t)
-        return _call(_L('AND'), *[_lam(p) for p in parts])
+            body = _call(_L('AND'), _lam(_call(_L('CMP'), _const(type(ops[0]).__name__), prev, _name(t))), _lam(chain(_name(t), ops[1:], comps[1:])))
+            fn = ast.Lambda(args=ast.arguments(posonlyargs=[], args=[ast.arg(arg=t)], kwonlyargs=[], kw_defaults=[], defaults=[]), body=body)
+            return ast.Call(func=fn, args=[self.visit(comps[0])], keywords=[])
+        return chain(left, list(node.ops), list(node.comparators))
 
     def visit_IfExp(self, node):
         return _call(_L('IFEXP'), self.visit(node.test), _lam(self.visit(node.body)), _lam(self.visit(node.orelse)))
